@@ -393,7 +393,8 @@ def r_filter(ctx):
     missing = [k_ for k_ in ('char', 'run', 'motif', 'rc') if found[k_] < 1]
     gone = [k_ for k_ in missing if not ingredients[k_]]
     _tri(run, not missing, bool(gone), 'R-FILTER', f,
-              'all-four-rule-kinds-present', f.node.lineno, 'character, run, motif and reverse-complement tests all reject',
+              'all-four-rule-kinds-present', f.node.lineno, 'character, run, motif and reverse-complement tests all reject'
+              + ('; not recognised: %s' % missing if missing else ''),
               'a rule kind of the documented predicate has no rejecting test and its ingredients are gone from the module: %s'
               % gone, inputs='strings violating the missing rule')
     check_gc(ctx, f, found['gc'], judged, k)
